@@ -320,6 +320,19 @@ where
                         if m2.ty != ms.ty {
                             viol("translate-concrete-type", "type changed".into());
                         }
+                        // ... and of the same text parsed over the target keys (the parser builds leaves through
+                        // the leaf constructors, translation rebuilds them through the type checker)
+                        if let Ok(parsed) = Miniscript::<bitcoin::PublicKey, Ctx>::from_str_with_validation_params(&m2.to_string(), &miniscript::ValidationParams::MAX) {
+                            if parsed.ext != m2.ext || parsed.ty != m2.ty {
+                                viol("translate-concrete-ext-vs-parse", format!("type / extra data of the translated object differ from the parsed one: {:?} vs {:?}", m2.ext, parsed.ext));
+                            }
+                        }
+                        // the translated object carries exactly the figures of the same term built directly over the target keys
+                        if let Ok(direct) = build::<bitcoin::PublicKey, Ctx>(t, &PkEnv { form }) {
+                            if direct.ext != m2.ext || direct.ty != m2.ty {
+                                viol("translate-concrete-ext", format!("type / extra data of the translated object differ from the directly built one: {:?} vs {:?}", m2.ext, direct.ext));
+                            }
+                        }
                     }
                     Ok(Err(TranslateErr::OuterError(_)))
                         if build::<bitcoin::PublicKey, Ctx>(t, &PkEnv { form }).is_err() =>
